@@ -79,7 +79,159 @@ def bool_formula(e, atom_of):
                                 ast.NotEq: ast.Eq}[type(e.ops[0])]()],
                       e.comparators)
     return ~bool_formula(pos, atom_of)
+  # a > b == not (a <= b);  a >= b == not (a < b)
+  if isinstance(e, ast.Compare) and len(e.ops) == 1 and isinstance(
+      e.ops[0], (ast.Gt, ast.GtE)):
+    pos = ast.Compare(e.left, [ast.LtE() if isinstance(e.ops[0], ast.Gt) else ast.Lt()],
+                      e.comparators)
+    return ~bool_formula(pos, atom_of)
   a = atom_of(e)
   if isinstance(a, F):
     return a
   return atom(a if a is not None else 'OPAQUE[%s]' % core.norm(e))
+
+
+def path_condition(fn_node, target, loop_scoped=True):
+  """[(polarity, test)] under which `target` (a node inside fn_node) executes:
+  the tests of the enclosing if statements / conditional expressions, plus the
+  negation of every earlier sibling `if` whose taken branch always leaves
+  (return / raise / continue / break)."""
+  out = []
+
+  def leaves(stmts):
+    if not stmts:
+      return False
+    last = stmts[-1]
+    if isinstance(last, (ast.Return, ast.Raise, ast.Continue, ast.Break)):
+      return True
+    if isinstance(last, ast.If):
+      return leaves(last.body) and leaves(last.orelse)
+    return False
+
+  def contains(n):
+    return n is target or any(x is target for x in ast.walk(n))
+
+  def rec_expr(e):
+    if e is target:
+      return True
+    if isinstance(e, ast.IfExp):
+      if contains(e.body):
+        out.append(('T', e.test))
+        return rec_expr(e.body)
+      if contains(e.orelse):
+        out.append(('F', e.test))
+        return rec_expr(e.orelse)
+    if isinstance(e, ast.BoolOp) and len(e.values) > 1:
+      for i, v in enumerate(e.values):
+        if contains(v):
+          for prev in e.values[:i]:
+            out.append(('T' if isinstance(e.op, ast.And) else 'F', prev))
+          return rec_expr(v)
+    for ch in ast.iter_child_nodes(e):
+      if contains(ch):
+        return rec_expr(ch)
+    return True
+
+  def rec(stmts):
+    for i, s in enumerate(stmts):
+      if isinstance(s, ast.If) and not contains(s):
+        if leaves(s.body) and not leaves(s.orelse):
+          out.append(('F', s.test))
+        elif leaves(s.orelse) and not leaves(s.body):
+          out.append(('T', s.test))
+        continue
+      if not contains(s):
+        continue
+      if isinstance(s, ast.If):
+        if contains(s.test):
+          return rec_expr(s.test)
+        if any(contains(b) for b in s.body):
+          out.append(('T', s.test))
+          return rec(s.body)
+        out.append(('F', s.test))
+        return rec(s.orelse)
+      for f in ('body', 'orelse', 'finalbody'):
+        blk = getattr(s, f, None)
+        if isinstance(blk, list) and blk and isinstance(blk[0], ast.stmt) and \
+            any(contains(b) for b in blk):
+          return rec(blk)
+      for h in getattr(s, 'handlers', []) or []:
+        if any(contains(b) for b in h.body):
+          return rec(h.body)
+      return rec_expr(s)
+    return True
+
+  rec(fn_node.body)
+  return out
+
+
+def condition_formula(fn_node, target, atom_of):
+  f = TRUE
+  for pol, t in path_condition(fn_node, target):
+    g = bool_formula(t, atom_of)
+    f = f & (g if pol == 'T' else ~g)
+  return f
+
+
+def value_cases(fn_node, expr, at_node, atom_of):
+  """[(formula, plain_expr)]: the alternatives of a (possibly nested) conditional
+  expression `expr` located at at_node, each with the condition under which it
+  is the value (path condition of at_node included)."""
+  base = condition_formula(fn_node, at_node, atom_of)
+  out = []
+
+  def rec(e, f):
+    if isinstance(e, ast.IfExp):
+      c = bool_formula(e.test, atom_of)
+      rec(e.body, f & c)
+      rec(e.orelse, f & ~c)
+    else:
+      out.append((f, e))
+  rec(expr, base)
+  return out
+
+
+def return_cases(fn_node, atom_of):
+  """[(formula, value_expr or None)] over every return statement of fn_node
+  (nested defs excluded) plus the implicit return at the end."""
+  out = []
+  for r in core.walk_no_nested(fn_node):
+    if isinstance(r, ast.Return):
+      if r.value is None:
+        out.append((condition_formula(fn_node, r, atom_of), None))
+      else:
+        out.extend(value_cases(fn_node, r.value, r, atom_of))
+  return out
+
+
+def satisfiable(a):
+  return any(a.fn(r) for r in rows(a.atoms))
+
+
+def expanding(fn_node, atom_of):
+  """atom_of wrapper: a plain local name that holds a boolean expression (one
+  reaching definition) is replaced by the formula of that expression."""
+  from sa import tpl
+
+  def wrapped(e, depth=0):
+    if isinstance(e, ast.Name) and depth < 4:
+      try:
+        ds = tpl.rdefs(fn_node).reaching(e, e.id)
+      except Exception:
+        ds = None
+      if ds and len(ds) == 1 and isinstance(ds[0], ast.AST) and isinstance(
+          ds[0], (ast.Compare, ast.BoolOp, ast.UnaryOp, ast.Call, ast.Constant)):
+        return bool_formula(ds[0], lambda x: wrapped(x, depth + 1))
+    return atom_of(e)
+  return wrapped
+
+
+def result_formula(fn_node, atom_of):
+  """The boolean a function returns, as one formula: OR over its return points
+  of (condition of the return AND formula of the returned expression)."""
+  f = FALSE
+  for c, v in return_cases(fn_node, atom_of):
+    if v is None:
+      continue
+    f = f | (c & bool_formula(v, atom_of))
+  return f
